@@ -121,6 +121,26 @@ func TestVerifGeneratedKeys(t *testing.T) {
 					v("honest-rejected", "key", "generated, crypto.Signer", "msg", msg, "sig", s2)
 				}
 			}
+			// a public key object that held another key is loaded with this key's
+			// encoding through its own decoder (where it has one): it must then
+			// verify this key's signatures and refuse the other key's
+			if len(ks) > 1 {
+				o := ks[(i+1)%len(ks)]
+				if holder, err := s.UnmarshalBinaryPublicKey(o.pkb); err == nil {
+					osig := s.Sign(o.sk, msg, nil)
+					_ = s.Verify(holder, msg, osig, nil) // use it first: fills whatever it caches
+					if reloadPublicKeyObject(holder, k.pkb) {
+						lib.Count("genkey:public-key-object-reloaded")
+						hb, _ := holder.MarshalBinary()
+						if !lib.Eq(hb, k.pkb) || !s.Verify(holder, msg, sig, nil) {
+							v("honest-rejected", "key", "public key object re-used for another key", "encoding_matches", lib.Eq(hb, k.pkb), "msg", msg, "sig", sig)
+						}
+						if s.Verify(holder, msg, osig, nil) {
+							v("accept-altered", "alteration", "signature of the key the object held before", "msg", msg)
+						}
+					}
+				}
+			}
 			// decoded copies
 			pk2, e1 := s.UnmarshalBinaryPublicKey(k.pkb)
 			sk2, e2 := s.UnmarshalBinaryPrivateKey(k.skb)
@@ -243,4 +263,27 @@ func scribbleHandOuts(obj any) int {
 		n++
 	}
 	return n
+}
+
+// reloadPublicKeyObject loads enc into obj through its own UnmarshalBinary /
+// Unpack([]byte); false if it has none or refuses.
+func reloadPublicKeyObject(obj any, enc []byte) (done bool) {
+	defer func() {
+		if recover() != nil {
+			done = false
+		}
+	}()
+	v := reflect.ValueOf(obj)
+	for _, mname := range []string{"UnmarshalBinary", "Unpack"} {
+		m := v.MethodByName(mname)
+		if !m.IsValid() || m.Type().NumIn() != 1 || m.Type().In(0) != reflect.TypeOf([]byte(nil)) {
+			continue
+		}
+		out := m.Call([]reflect.Value{reflect.ValueOf(lib.Clone(enc))})
+		if len(out) == 1 && !out[0].IsNil() {
+			return false
+		}
+		return true
+	}
+	return false
 }
